@@ -42,6 +42,11 @@ def aps_ack_timeout() -> float:
     return tree_const("bellows.zigbee.application", "APS_ACK_TIMEOUT", 120.0)
 
 
+def startup_reset_wait() -> float:
+    """how long a socket-attached NCP is given to announce its own start-up reset before the host asks for one"""
+    return tree_const("bellows.ezsp", "NETWORK_COORDINATOR_STARTUP_RESET_WAIT", 1.0)
+
+
 def retry_delays() -> list:
     """the 'fixed number of spaced retries' of a busy NCP: the tree's list of delays (its length is the number of attempts)"""
     try:
